@@ -27,7 +27,7 @@ def latest_results():
             continue
         for line in open(path):
             m = re.match(r'\|\s*(C\d+)\s*\|\s*(\S+)\s*\|\s*([^|]+?)\s*\|\s*([^|]*?)\s*\|\s*(.*?)\s*\|\s*$', line)
-            if m and m.group(2) not in ('patch', '---'):
+            if m and m.group(2) not in ('patch', '---') and os.path.exists(os.path.join(VERIF, m.group(2)) if not m.group(2).startswith('selftest/') and not m.group(2).startswith('seeded/') else os.path.join(VERIF, m.group(2))):
                 rows[m.group(2)] = (m.group(1), m.group(3), m.group(5))
     return rows
 
